@@ -21,5 +21,9 @@ template <class C, class A> A vf_setter_arg(void (C::*)(A));
 #define VF_GEN_FIELDS
 #include "gen_tins.inc"
 #undef VF_GEN_FIELDS
+#define VF_UFIELD(Q, N, F, OWNER, ON) void ufield_##N##_##ON##_##F(Q& o) { typedef typename std::decay<decltype(vf_setter_arg(&OWNER::F))>::type A; auto v = o.F(); (void)v; A* a = 0; (void)a; Q x; (void)x; }
+#define VF_GEN_UFIELDS
+#include "gen_tins.inc"
+#undef VF_GEN_UFIELDS
 }
 int main() { return 0; }
